@@ -767,7 +767,7 @@ def terms_are_like(
     if len(one.variables) != len(two.variables):
         return False
 
-    invalid = len([False for v in one.variables if v not in two.variables]) > 0
+    invalid = sorted(one.variables) != sorted(two.variables)
     if invalid:
         return False
 
